@@ -10,12 +10,16 @@ TECH = 'deterministic simulation with fault injection: seeded search over simula
 
 CHECKS = {
     'C18': dict(
-        engine='pipeline-sim', design='DESIGN.md §4 C18',
+        engine='pipeline-sim + driver-sim', design='DESIGN.md §4 C18, §0.9',
         text='Seeded search over simulated pipeline runs (choice tape, buggify, swarm '
              'configuration, early timer fires, clock jumps); every exception, hang, AST nesting '
              'above the calibrated bound, or a > 25 % rate of deterministic budget exhaustion on '
-             'unbiased runs is a violation with a replayable tape. Evidence over sampled choice '
-             'sequences, not a proof.',
+             'unbiased runs is a violation with a replayable tape. 30 % of the runs continue as a '
+             'session of further programs in one process with a small identifier pool; 12 % of '
+             'the evaluations are whole sessions of the real hephaestus.py with the real generator '
+             'on the simulated worker pool (process-private module state per worker), where any '
+             'program the driver reports as a tool failure is an internal failure. Evidence over '
+             'sampled choice sequences, not a proof.',
         note='Trusted: the simulator seams (sim/core.py) and the work-unit accounting. Wall time '
              'is never an oracle.',
         technique=TECH + '; invariant: no exception / bounded nesting / budget rate'),
@@ -32,7 +36,8 @@ CHECKS = {
         text='Translator op histories (shared/fresh/foreign-language translators, package '
              'switches) over the stage programs of simulated pipeline runs; byte equality with '
              'the first fresh translation and structural-snapshot equality of the program after '
-             'every operation.',
+             'every operation; every history ends with a sweep of each program through the shared '
+             'translator of each language.',
         note='Trusted: sim/snap.asnap covers every attribute of the program graph.',
         technique=TECH + '; history check: byte-equal text and unchanged program after every op'),
     'C13': dict(
@@ -64,12 +69,15 @@ CHECKS['C15'] = dict(
          'and clock scripts; an independent decision table, a counter ledger checked after every '
          'batch, faults.json/stats.json and a directory-tree model decide. Sampled plans.',
     note='Trusted: the scripted compiler peer is the ground truth; the simulated pool runs a '
-         'task to completion once scheduled. Two genuine defects were repaired (C15-F1, C15-F2).',
+         'task to completion once scheduled, on a seeded worker that owns private copies of the '
+         'identifier pool, STOP_COND and STATS (fork image). Two genuine defects were repaired '
+         '(C15-F1, C15-F2).',
     technique=TECH + '; history check against an independent decision table and directory model')
 CHECKS['C14'] = dict(
     engine='driver-sim (scripted compiler peer) + real javac', design='DESIGN.md §4 C14',
     text='Scripted compiler outputs in the four formats with seeded noise, ordering, interleaving, '
-         'filters and stack traces, analysed by the real analyze_compiler_output and compared with '
+         'filters and stack traces (alone, or after / before / between complete diagnostic blocks), '
+         'analysed by the real analyze_compiler_output and compared with '
          'the peer\'s ground truth; a share of runs uses the real javac on programs with injected '
          'errors. Sampled outputs.',
     note='Trusted: the output templates of sim/simcompiler.py (kotlinc, groovyc, scalac are not '
@@ -106,29 +114,34 @@ CHECKS['C07'] = dict(
          'to_type_variable_free call on the aliased type objects of simulated pipeline runs: '
          'deep snapshots of all inputs before and after, a seeded ledger of earlier '
          'instantiations, and comparison of the result with an independent substitution '
-         '(supertypes transitively); plus ground re-instantiation of every generic class of the '
-         'finished program.',
+         '(supertypes transitively); every instantiation nested anywhere in a result must keep '
+         'its class\'s supertypes under its own arguments; plus ground re-instantiation of every '
+         'generic class of the finished program.',
     note=MON_NOTE, technique=TECH + '; in-run monitor: before/after snapshots + reference substitution')
 CHECKS['C08'] = dict(
     engine='pipeline-sim monitors', design='DESIGN.md §4 C08',
     text='Every instantiate_type_constructor / instantiate_parameterized_function call of '
          'simulated runs plus re-instantiation of every generic declaration of the finished '
-         'program, judged for arity, bounds (after substituting the other arguments), usable '
-         'arguments, kept pre-assignments and permitted projections.',
+         'program (incl. generic methods of generic classes with the class assignments handed '
+         'over by the caller, and a derived bound G<T, a..> over a class variable), judged for '
+         'arity, bounds (after substituting the other arguments and the caller\'s assignments), '
+         'usable arguments, kept pre-assignments and permitted projections.',
     note=MON_NOTE + ' One genuine defect repaired (C08-F1).',
     technique=TECH + '; in-run monitor + post-run probe against a bounds/variance judgement')
 CHECKS['C09'] = dict(
     engine='pipeline-sim monitors', design='DESIGN.md §4 C09',
     text='Every find_subtypes / find_supertypes / find_irrelevant_type call of simulated runs '
          '(generator, erasure analysis, overwriting) plus both searches re-run for types of the '
-         'finished program, judged against the reference relation over the final class table.',
+         'finished program (nested generic queries also against small pools made of their own '
+         'constituents), judged against the reference relation over the final class table.',
     note=MON_NOTE + ' One defect repaired (C09-F1), three known findings (C09-K1..K3).',
     technique=TECH + '; in-run monitor + post-run probe against a reference relation')
 CHECKS['C10'] = dict(
     engine='pipeline-sim monitors', design='DESIGN.md §4 C10',
     text='Every non-empty unify_types result of simulated runs (same-type and supertype-matching '
          'mode) plus probe unifications derived from the instantiations of the finished program '
-         '(ground positions made right and wrong, repeated variables) checked against the '
+         '(ground positions made right and wrong, repeated variables, variables bounded by a '
+         'sibling variable or by a type over another bounded variable) checked against the '
          'substitute-back law and the bound conditions.',
     note=MON_NOTE,
     technique=TECH + '; in-run monitor + post-run probe: substitute-back law')
@@ -139,8 +152,9 @@ CHECKS['C03'] = dict(
          'injected during the transformation): attribute-level snapshot diff must consist of '
          'permitted removals only; a run in which the timer fired must equal the fault-free run '
          'of the same tape; the inference obligation that is certain for Kotlin (omitted type '
-         'arguments of a constructor call without expected type need every type parameter in a '
-         'constructor parameter type) is checked on the erased program. Typability under '
+         'arguments of a constructor call or generic method call without expected type need '
+         'every type parameter in a parameter type) is checked on the erased program; half of '
+         'the runs target Kotlin. Typability under '
          'inference for Java is judged by the real javac in C02 (erased leg).',
     note='Trusted: sim/snap.asnap/adiff cover every attribute. kotlinc/scalac/groovyc are not '
          'installed; the general inference-mode reference checker of DESIGN.md §3.4 is not built, '
@@ -162,7 +176,9 @@ CHECKS['C12'] = dict(
     text='Stage programs of simulated pipeline runs translated by their language\'s translator: '
          'bracket/quote balance, declaration inventory against scanners of the text, and '
          'sentinel taint (one annotation at a time replaced by a fresh sentinel type in a pickled '
-         'copy; it must appear in the text iff the language prints that annotation).',
+         'copy; it must appear in the text iff the language prints that annotation) extended to '
+         'element taint: parameter / field types, bounds, super-type arguments, is-types, casts, '
+         'literals, operators and val/var, vararg, !is flags must each be reflected in the text.',
     note='Trusted: the per-language expectation table and header scanners of checks/c12.py. '
          'Three known findings (C12-K1..K3: documented translator design).',
     technique=TECH + '; sentinel taint + inventory scanners on emitted text')
